@@ -50,14 +50,19 @@ TEXT = {
             "value() (C05_chain_get / _value); every mutating command through the bottom view either fails leaving the "
             "whole store untouched or gives the view the value the command specifies and rewrites EVERY enclosing view to "
             "its value with the nested slot replaced, hooks and types unchanged, nothing outside the chain touched "
-            "(C05_cmd_on_chain), and each then has the root and encoding of that value (C05_chain_observed). That the "
+            "(C05_cmd_on_chain), and each then has the root and encoding of that value (C05_chain_observed). Forests: for ANY "
+            "set of simultaneously held views (AllGood) and any view with valid hooks, the same with the tracked value of "
+            "every held view specified (C05_forest_mutation / _get / _value / _init), and assignment / append / bit "
+            "assignment keep every view usable (C05_forest_keeps_valid), so histories in any order stay covered. That the "
             "Python closures are these hooks, for interleavings over up to 14 held views obtained by index, iteration "
             "and slices: correspondence.",
             "Coq proof on the store model and the Repr invariant + correspondence", "5 (C05)"),
     "C06": ("Theorems: on the node heap (addresses, caches) every later allocation / write / root computation leaves what "
             "every existing address denotes unchanged (append-only objects; only root caches are written); copies carry no "
             "hook and commands on a copy leave every other held view unchanged; a command through any view with a valid hook "
-            "chain changes only the cells of that chain (C06_only_the_chain_changes). Tie: histories with copies + model-free "
+            "chain changes only the cells of that chain (C06_only_the_chain_changes); in a forest of held views a copy is "
+            "tracked with the original's value at that moment and every view off the written trail keeps its tracked value, "
+            "root and encoding (C06_forest_copy, C06_off_trail_value_kept). Tie: histories with copies + model-free "
             "snapshot oracle (root recomputed from scratch, child identity, re-decoding).",
             "Coq proof on heap + store models + correspondence", "5 (C06)"),
     "C07": ("Theorems (Coq, all H/src/trees/paths, by induction on the path): read-back, frame (both directions), "
